@@ -420,6 +420,18 @@ func c12cases(e vt.Env, yield func(vt.Case) bool) {
 		}
 	}
 
+	// (bigbody) bodies around and beyond the 4 MiB preallocation limit, complete and cut off,
+	// with the Content-Type field right, wrong, absent and repeated
+	for _, fr := range frs {
+		if fr.kind == 'j' {
+			continue
+		}
+		fr := fr
+		if !yield(vt.Case{ID: "bigbody/" + fr.name, Run: func(c *vt.Ctx) { c12bigbody(c, e, fr) }}) {
+			return
+		}
+	}
+
 	// (longline) header lines and split records around the 4096-byte reader buffer
 	for _, fr := range frs {
 		if fr.kind == 'j' {
@@ -602,6 +614,57 @@ func c12absurd(c *vt.Ctx, fr c12fr) {
 			}
 		}
 	}
+}
+
+// c12bigbody: records around the size above which the header framing reads the body
+// incrementally (4 MiB), each followed by a small record, complete and cut off. For
+// header framings every Content-Type situation is tried, because the large path and
+// the type check meet there: whatever the size, a record is delivered whole, with the
+// documented type error where one is due, and the next record follows.
+func c12bigbody(c *vt.Ctx, e vt.Env, fr c12fr) {
+	a := newC12acct(c, fr, "bigbody")
+	defer a.flush()
+	rng := e.Rand("C12/bigbody/" + fr.name)
+	sizes := []int{4<<20 - 1, 4 << 20, 4<<20 + 1, 5<<20 + 17}
+	if e.Thorough() {
+		sizes = append(sizes, 8<<20, 9<<20+3)
+	}
+	for _, n := range sizes {
+		body := make([]byte, n)
+		for i := range body {
+			body[i] = 'a' + byte(rng.UintN(26))
+		}
+		if fr.kind == 's' {
+			sp := []byte{fr.splitByte()}
+			whole := append(append(append([]byte("x"), sp...), body...), sp...)
+			whole = append(append(whole, "ok"...), sp...)
+			for _, stream := range [][]byte{whole, whole[:len(whole)/2], whole[:2+n]} {
+				if !a.input(stream, c12modesAll[:2]) {
+					return
+				}
+			}
+			continue
+		}
+		types := []string{"", "Content-Type: text/other\r\n", "content-type:\r\n"}
+		if fr.mime != "" {
+			types = append(types, "Content-Type: "+fr.mime+"\r\n", "Content-Type: "+fr.mime+"\r\nContent-Type: text/other\r\n", "Content-Type: text/other\r\nContent-Type: "+fr.mime+"\r\n")
+		}
+		next := "Content-Length: 2\r\n\r\nok"
+		if fr.mime != "" {
+			next = "Content-Type: " + fr.mime + "\r\n" + next
+		}
+		for _, ct := range types {
+			for _, head := range []string{ct + "Content-Length: " + fmt.Sprint(n) + "\r\n\r\n", "Content-Length: " + fmt.Sprint(n) + "\r\n" + ct + "\r\n"} {
+				whole := append(append([]byte(head), body...), next...)
+				for _, stream := range [][]byte{whole, whole[:len(head)+n-1], whole[:len(head)+n/2]} {
+					if !a.input(stream, c12modesAll[:2]) {
+						return
+					}
+				}
+			}
+		}
+	}
+	c.Count("bodies_beyond_4MiB", 1)
 }
 
 // c12longline: lines longer than the decoder's internal buffer. For header
